@@ -2,11 +2,18 @@
    any number of goroutines at once, on shared read-only arguments, and each call returns the result it returns when run alone.
    Only statements, `exact` proofs and Print Assumptions live here. Machine, premise and proofs: theories/Conc.v; run-time prediction: theories/DC19.v.
 
-   PARTIAL. What is proved is non-interference of an abstract machine (threads = deterministic step functions over private state + one shared
-   store; schedules = arbitrary lists of thread identifiers). What ties the Go code to the machine is not proved but re-established on every run:
-   the premise `shared_sites = []` is generated from the source by harness/cmd/vscan and checked by `reflexivity` (step "ssa-premise"), and the race
-   detector corroborates it on seeded concurrent mixes (step "race-run", entry ParallelMix). Trusted: the Go memory model (a data-race-free program
-   behaves as some interleaving of its goroutines' steps), the soundness of the SSA/RTA scan (`scanned`), the race detector. *)
+   PARTIAL. Every theorem below is about an abstract machine (threads = deterministic, total step functions over private state, atomic steps, one
+   shared store; schedules = arbitrary lists of thread identifiers), not about /repo. Clause by clause:
+     "no mutable shared state"      - not a Coq fact: it is the frame hypothesis / `premise`; harness/cmd/vscan prints the list of instructions
+                                      that may write shared memory, the generated Premise.v instantiates
+                                      C19_noninterference_for_a_scanned_list_partial with that list (type-checks only when it is empty);
+     "any mix, any goroutines"      - proved on the machine for every schedule, thread count and step count, under the frame hypothesis;
+     "without data races"           - not expressible on a machine with atomic steps; sampled by the race detector (step "race-run") only;
+     "same result as when run alone"- proved on the machine (equal private state at equal step count); on the Go side compared by rendering, as a
+                                      multiset for the set-valued functions whose order follows map iteration;
+     inputs unmodified              - first conjunct of the theorems; on the Go side a byte comparison of the rendered inputs.
+   Trusted: the Go memory model (a data-race-free program behaves as some interleaving of its goroutines' steps), the soundness of the scan
+   (`scanned`; with an empty list it is exactly the frame condition, see C19_scanned_with_no_site_is_the_frame_condition), the race detector. *)
 From Coq Require Import List Arith String.
 From SID Require Import Wire Conc DC19.
 Import ListNotations.
@@ -34,6 +41,27 @@ Theorem C19_concurrent_calls_do_not_interfere_partial :
       snd (run Shared Local step sched s ls) t = solo Shared Local step (steps_of sched t) s (ls t).
 Proof. exact noninterference_under_premise. Qed.
 Print Assumptions C19_concurrent_calls_do_not_interfere_partial.
+
+(* The same for a list given as data, in the form the generated file instantiates: step "ssa-premise" writes `SharedState.v` (the list
+   `shared_sites` printed by the scan of the tree under analysis) and compiles `Premise.v`, whose theorem is this one applied to `shared_sites`
+   with `eq_refl : premiseb shared_sites = true` (type-checks only when the scan reported nothing). *)
+Theorem C19_noninterference_for_a_scanned_list_partial :
+  forall sites : list site, premiseb sites = true ->
+  forall (Shared Local : Type) (step : Shared -> Local -> Shared * Local) (at_site : Local -> option site),
+    scanned Shared Local step at_site sites ->
+    forall (sched : list nat) (s : Shared) (ls : nat -> Local) (t : nat),
+      fst (run Shared Local step sched s ls) = s /\
+      snd (run Shared Local step sched s ls) t = solo Shared Local step (steps_of sched t) s (ls t).
+Proof. exact noninterference_for_scanned_list. Qed.
+Print Assumptions C19_noninterference_for_a_scanned_list_partial.
+
+(* What the hypothesis `scanned` is worth: with the empty list it is exactly the frame condition of the first theorem, nothing more (the two
+   theorems above are the first one read through the scanner's report); it names what is trusted about the scan, it does not prove it. *)
+Theorem C19_scanned_with_no_site_is_the_frame_condition :
+  forall (Shared Local : Type) (step : Shared -> Local -> Shared * Local),
+    (exists at_site, scanned Shared Local step at_site []) <-> (forall s l, fst (step s l) = s).
+Proof. exact scanned_nil_iff_frame. Qed.
+Print Assumptions C19_scanned_with_no_site_is_the_frame_condition.
 
 (* A call that returns after n steps when run alone has returned the same result in every schedule that lets it take at least n steps,
    whatever the other goroutines run. *)
